@@ -7,7 +7,19 @@ ASPECTS = {'C01': ('actions', 'state'), 'C02': ('offers', 'state', 'actions', 'i
            'C22': ('actions', 'state', 'offers')}['C02']
 
 
+def template_scenarios(seed, tier):
+    """charts built from state_method_template (incl. reactions registered after the chart has run)"""
+    from replay import C17
+    n = 0
+    for sc in C17.scenarios(seed, tier, []):
+        if sc.get('build') in ('template', 'all') and n < (60 if tier == 'quick' else 2000):
+            n += 1
+            yield dict(sc, build='template')
+
+
 def scenarios(seed, tier, failed):
+    for sc in template_scenarios(seed, tier):
+        yield sc
     import random
     rnd = random.Random(seed + 303)
     for k, sc in enumerate(charts.standard_scenarios(seed, tier, with_queries=('C02' != 'C03'))):
@@ -24,6 +36,10 @@ def scenarios(seed, tier, failed):
 
 
 def run(sc):
+    if sc.get('kind') == 'c17':
+        from replay import C17
+        ok, detail = C17.run_(sc)
+        return ok, detail, ('template' if not ok else '*')
     ok, detail, key = charts.run_and_check(sc, ASPECTS)
     if 'C02' == 'C03' and key == 'dispatch':
         return True, ''
